@@ -10,6 +10,7 @@ import Revm.Proofs.EvmLinkSame
 import Revm.Proofs.EvmLinkEther9
 import Revm.Proofs.EvmLinkStatic6
 import Revm.Proofs.EvmLinkTerm
+import Revm.Proofs.EvmLinkTotal4
 /-! C01Link — the whole-transaction model `Revm.Model.Evm.transact` (C01) SATISFIES the component properties.
 
 `Evm.transact` (EvmTx / EvmFrame / EvmLoop / EvmHost) was written independently of the component models that carry the
@@ -22,7 +23,7 @@ Translations (`Proofs/EvmLink*.lean`): `tvCfg / tvBlock / tvTx / senderOf` (the 
 reads them), `gasEnv / frameRes / toIR` (the environment and the first frame's result as C09 reads them).
 
 Sections: 1 validation (C02) · 2 gas and fees (C09) · 3 frame depth (C07) · 4 the `Host` as a journal history, cold /
-warm (C34) · 5 static mode (C10) · 6 ether conservation (C08) · 7 termination.
+warm (C34) · 5 static mode (C10) · 6 ether conservation (C08) · 7 termination · 8 panic-freedom of the journal and frame machine.
 
 What is hypothesised and not proved here: `loadSender … = .ok …` (the journal can load the sender: no `unwrap` panic in
 the journal model, the code store knows the sender's code hash); for C34 the history `lockRun … = some l` leading to the
@@ -855,5 +856,90 @@ theorem transact_terminates :
 example : 2 * sampleEnv.tx.gasLimit + 2 = 42002 := rfl
 example : ∃ r w', Evm.transact 42002 sampleWorld sampleEnv 17 = .ok (.executed r, w') :=
   exists_of_isExecuted (by decide +kernel)
+
+/-! ## 8. panic-freedom of the journal and frame machine (C07 `*_total` on EvmHost / EvmFrame / EvmLoop / EvmTx)
+
+`WOk w` = C07's `Good` journal (entries refer to present accounts / slots, at least the transaction level, cached
+balances are words) and 256-bit balances in the database. Failures are classified: `Soft` — not Rust panics of the
+journal / frame / interpreter code: the code store does not know a hash (`code_by_hash`: a database miss), an executable
+precompile panics (C23: MODEXP on a huge length and gas limit does, so unconditional panic-freedom is FALSE), a missing
+oracle answer, a fatal database error; `Resid` — NOT excluded here: interpreter faults (`interpreter: …`,
+`insert outcome: …`, `free_context`, an EOFCREATE action, an internal result flag), `sload` / `sstore` / `selfdestruct`
+on an account that is not loaded, the environment (`already checked`, `initcode_cost`), and the fuel. Everything else —
+every `unwrap` of the journal and of the frame machine: `load_account`, `load_code`, `load_account_delegated`, `touch`,
+`transfer`, `checkpoint_revert`, `inc_nonce`, `create_account_checkpoint`, `set_code`, `tstore`, `account not loaded`,
+`code not cached`, `empty call stack` — is proved impossible. -/
+
+open Revm.Proofs.Frame (Good DbBal) in
+/-- LINK (C07 `hostStep_total` on EvmHost): every `Host` answer on a well-formed world, with the account whose storage is
+accessed loaded, is a value on a well-formed world with the same number of journal levels — or a soft failure -/
+theorem evm_host_total (w : World) (h : WOk w) (he : HostEnv) (op : Interp.HostOp) (hok : HOk w.js op) :
+    Tot (answer he w op) (fun r => WS w r.2) := tot_answer h he op hok
+
+/-- LINK (C07 `makeCallFrame_total`, `makeCreateFrame_total`, `callReturn_total`, `createReturn_total` on EvmFrame):
+the frame functions are total on a well-formed world; the checkpoint of a frame they open lies strictly inside the
+journal; a return needs the frame's checkpoint inside the journal (and the created account loaded) -/
+theorem evm_frame_functions_total (w : World) (h : WOk w) (cfg : Cfg) (mem : Memory.SharedMemory) :
+    (∀ i : Interp.CallInputs, Tot (makeCallFrame journalOps cfg w i mem) (fun r => FOut w r.2 r.1)) ∧
+    (∀ i : Interp.CreateInputs, Tot (makeCreateFrame journalOps cfg w i mem) (fun r => FOut w r.2 r.1)) ∧
+    (∀ (cp : Journal.Checkpoint) (r : Interp.ChildResult), 1 ≤ cp.journalI → cp.journalI < w.js.journal.length →
+      Tot (callReturn journalOps w cp r) (fun p => WOk p.2)) ∧
+    (∀ (cp : Journal.Checkpoint) (a : Nat) (r : Interp.ChildResult), 1 ≤ cp.journalI →
+      cp.journalI < w.js.journal.length → (w.js.state a).isSome →
+      Tot (createReturn journalOps cfg w cp a r) (fun p => WOk p.2)) :=
+  ⟨fun i => tot_mono (tot_makeCallFrame h cfg i mem) (fun _ hr => hr.1),
+   fun i => tot_mono (tot_makeCreateFrame h cfg i mem) (fun _ hr => hr.1),
+   fun cp r h1 h2 => tot_mono (tot_callReturn h cp r h1 h2) (fun _ hr => hr.1),
+   fun cp a r h1 h2 h3 => tot_mono (tot_createReturn h cfg cp a r h1 h2 h3) (fun _ hr => hr.1)⟩
+
+/-- LINK (C07 `run_total` on EvmLoop): from a stack whose checkpoints are nested inside the journal of a well-formed
+world (`LI`), `run_the_loop` — for every fuel — ends in a result on a well-formed world, a soft failure or a residual
+failure -/
+theorem evm_runLoop_total (cfg : Cfg) (fuel : Nat) (stack : List JFrame) (w : World) (hne : stack ≠ [])
+    (h : LI stack w) : Tot2 (runLoop journalOps cfg fuel stack w) (fun p => WOk p.2) :=
+  (tot2_runLoop cfg fuel).1 stack w hne h
+
+/-- COROLLARY (`transact_total`, the part that is proved): on a well-formed world, for every environment and fork,
+with `2 · gas_limit + 2` units of fuel or more, `Evm.transact` returns a result (rejected or executed) on a well-formed
+world — or fails softly (`Soft`), or with a residual failure (`Resid`) that is not "out of fuel" -/
+theorem transact_total_partial (fuel : Nat) (w : World) (e : Evm.Env) (spec : Nat) (h : WOk w)
+    (hf : 2 * e.tx.gasLimit + 2 ≤ fuel) :
+    (∃ o w', Evm.transact fuel w e spec = .ok (o, w') ∧ WOk w') ∨
+    (∃ err, Evm.transact fuel w e spec = .error err ∧ (Soft err ∨ Resid err) ∧ err ≠ .outOfFuel) := by
+  have h1 := transact_tot2 fuel w e spec h
+  have h2 := transact_terminates' fuel w e spec hf
+  cases hx : Evm.transact fuel w e spec with
+  | ok p => rw [hx] at h1; exact Or.inl ⟨p.1, p.2, rfl, h1⟩
+  | error err =>
+    rw [hx] at h1
+    exact Or.inr ⟨err, rfl, h1, fun he => h2 (by rw [hx, he])⟩
+
+/-- in particular: a panic `Evm.transact` returns on a well-formed world carries one of the residual messages (or is
+the code-store miss / the precompile panic) — never a journal or frame-machine `unwrap` -/
+theorem transact_no_journal_panic (fuel : Nat) (w : World) (e : Evm.Env) (spec : Nat) (h : WOk w) (m : String)
+    (hx : Evm.transact fuel w e spec = .error (.panic m)) :
+    Soft (.panic m) ∨ Resid (.panic m) := by
+  have h1 := transact_tot2 fuel w e spec h
+  rw [hx] at h1
+  exact h1
+
+/-- the full statement this section works towards: no residual panic either, i.e. outcomes are only results and soft
+failures. NOT proved: what is missing is (1) C25's per-frame invariant (`init_inv` for the frames `makeFrame` creates —
+code and input within `isize::MAX`, fresh memory context below 2^62 — `step_good` with `RespOk` for every `Host` answer
+and `ChildOk` for every delivered result, `insert_*_outcome` on the memory the child gives back), which removes
+`interpreter: …`, `insert outcome: …`, `free_context`, the EOFCREATE action and the internal result flags; (2) that a
+frame asks `sload` / `sstore` / `selfdestruct` only about its own loaded address; (3) a well-formed environment
+(`already checked`, `initcode_cost`). -/
+def FullStatement_transact_total_link : Prop :=
+  ∀ (fuel : Nat) (w : World) (e : Evm.Env) (spec : Nat), WOk w → 2 * e.tx.gasLimit + 2 ≤ fuel →
+    (∃ r, Evm.transact fuel w e spec = .ok r) ∨ (∃ err, Evm.transact fuel w e spec = .error err ∧ Soft err)
+
+/-- non-vacuity: the sample world is well formed -/
+example : WOk sampleWorld := wok_fresh sampleWorld 17 (fun _ => false) rfl (by
+  intro p hp
+  simp only [sampleWorld, List.mem_singleton] at hp
+  subst hp
+  show (10 : Nat)^18 < W
+  rw [W_val]; decide)
 
 end Revm.Props.C01Link
